@@ -305,7 +305,18 @@ RekeySet ==
   { LET s == SetToSuite(q) IN
     Rekey("rekey-" \o ToString(q) \o "-" \o kind \o (IF kn THEN "-new" ELSE "-old"), Scn(13000 + q + Seed, s[1], s[2], 1, 4 + (q % 9), 1 + (q % 20), TRUE, 4, (q % 2) = 0), kind, kn)
     : q \in 1..(IF Full THEN 36 ELSE 9), kind \in {"pw", "kg"}, kn \in BOOLEAN }
+\* a username of more than 16 bytes through the session API: an error, and no RAKP Message 1 carrying a shortened name
+\* (the BMC side is honest for the name the caller gave, so a truncated name could not even authenticate - but it must
+\* not be sent in the first place)
+LongUserSet ==
+  { LET s == SetToSuite(n)
+        S0 == Scn(14000 + n, s[1], s[2], 1, 5, 7, FALSE, 4, TRUE)
+        S == [S0 EXCEPT !.uname = [i \in 1..n |-> 97 + ((i + n) % 26)]] IN
+    ScriptOf("longuser-" \o ToString(n), "longuser", S,
+             << NewSessionCall(S, ExpErr(S, "userTooLong")), HonestOsr(S), HonestRakp2(S), HonestRakp4(S), ExpectSession(S) >>, [mut |-> "none"])
+    : n \in {17, 18, 20, 32, 33, 64, 255, 256, 257, 260, 272, 273, 512, 516} }
 Scripts == CASE Family = "honest" -> HonestSet \cup NoneSet \cup DefaultSet
+             [] Family = "longuser" -> LongUserSet
              [] Family = "rekey" -> RekeySet
              [] Family = "lifecycle" -> LifecycleSet
              [] Family = "long" -> LongSet
